@@ -104,7 +104,7 @@ pub fn build_setup(rng: &mut Rng, world: &World, tier: Tier) -> Option<Setup> {
     let final_seq = rng.chance(1, 12);
     for (i, ip) in inputs.iter().enumerate() {
         let (_, o) = ip.case.timelocks();
-        let mut seq = o.iter().cloned().filter(|v| v & (1 << 22) == 0).max().unwrap_or(0xffff_fffd);
+        let mut seq = o.iter().cloned().filter(|v| v & (1 << 22) == 0).max().unwrap_or(0xffff_fffd + (i as u32 & 1)); // the two non-final values that carry no relative lock
         // all inputs final, or just this one (another input's finality is none of this input's business)
         if final_seq || rng.chance(1, 8) {
             seq = 0xffff_ffff;
